@@ -362,29 +362,36 @@ impl Property for C14 {
                 })
                 .collect();
             let bad: std::sync::Mutex<Option<String>> = std::sync::Mutex::new(None);
-            let barrier = std::sync::Barrier::new(nthreads);
+            let go = std::sync::atomic::AtomicBool::new(false);
+            let mut started = 0usize;
             std::thread::scope(|s| {
                 for th in 0..nthreads {
-                    let (texts, bad, shared, barrier) = (&texts, &bad, &shared, &barrier);
-                    std::thread::Builder::new()
-                        .stack_size(256 << 10)
-                        .spawn_scoped(s, move || {
-                            barrier.wait();
-                            for i in 0..iters {
-                                let (li, t, want) = &texts[(i + th) % texts.len()];
-                                let got = std::panic::catch_unwind(std::panic::AssertUnwindSafe(|| format!("{:?}", text2digits(t, &shared[*li])))).unwrap_or_else(|_| "<panicked>".into());
-                                if &got != want {
-                                    let mut b = bad.lock().unwrap();
-                                    if b.is_none() {
-                                        *b = Some(format!("{} threads sharing the interpreters: text2digits({:?}) = {}, single-threaded {}", nthreads, t, got, want));
-                                    }
-                                    return;
+                    let (texts, bad, shared, go) = (&texts, &bad, &shared, &go);
+                    let r = std::thread::Builder::new().stack_size(256 << 10).spawn_scoped(s, move || {
+                        while !go.load(std::sync::atomic::Ordering::Acquire) {
+                            std::thread::yield_now();
+                        }
+                        for i in 0..iters {
+                            let (li, t, want) = &texts[(i + th) % texts.len()];
+                            let got = std::panic::catch_unwind(std::panic::AssertUnwindSafe(|| format!("{:?}", text2digits(t, &shared[*li])))).unwrap_or_else(|_| "<panicked>".into());
+                            if &got != want {
+                                let mut b = bad.lock().unwrap();
+                                if b.is_none() {
+                                    *b = Some(format!("{} threads sharing the interpreters: text2digits({:?}) = {}, single-threaded {}", nthreads, t, got, want));
                                 }
+                                return;
                             }
-                        })
-                        .unwrap();
+                        }
+                    });
+                    // a sandbox may cap the number of threads: use as many as could be started
+                    if r.is_err() {
+                        break;
+                    }
+                    started += 1;
                 }
+                go.store(true, std::sync::atomic::Ordering::Release);
             });
+            let nthreads = started;
             obs.evaluations += (nthreads * iters) as u64;
             obs.label("oversubscription(384+ threads)");
             if let Some(m) = bad.into_inner().unwrap() {
